@@ -9,7 +9,7 @@ import numpy as np
 import thermosteam as tmo
 from thermosteam import separations as sep
 from thermosteam.exceptions import InfeasibleRegion
-from vt.core import case_hash
+from vt.core import case_hash, exc_key
 from vt.common import thermo_of, stream_invariant
 
 PID = 'C20'
@@ -20,10 +20,15 @@ RULE = ('random cases per helper: mix_and_split, adjust_moisture_content, mix_an
         'a bare string; equal / repeated / unit K values; partition_coefficients() of the outlets against the given K, vle_/lle_partition_coefficients() of the wrapper outlets; vle driven by duty Q, by x / y '
         '(binary feeds), far below bubble / above dew, and with a stale multi_stream=; lle with multi_stream= and single-liquid-phase feeds; phase_split of a single-phase Stream; mix_and_split with '
         'MultiStream / gas inlets and with the top outlet among the inlets. '
+        'Oracle audit: a raise is a refusal only for the documented exception type AND where the harness sees from the inputs that it is warranted (moisture: its own need / have / liquid moisture; '
+        'partition: its own Rachford-Rice flows outside [0, feed] under strict=True, never under strict=False; vle: x / y outside the lever rule on the bubble / dew point, a duty cooling the feed below 250 K; '
+        'lle and vle (V,P) / (T,P) / (V,T): never); phase_split is compared with the rows the harness put in; y_i = K_i x_i over the whole outlets for every listed chemical wherever the Rachford-Rice reference has an interior root. '
         'non-trivial = >=2 chemicals flowing and both outlets non-empty (or a non-degenerate target); distinct = hash of the case')
 MIN_NONTRIVIAL = {'quick': 400, 'thorough': 15000}
 ASSUMPTIONS = ['the vle / lle wrappers are driven with water/alcohol(/octanol) feeds inside the model ranges; their equilibrium quality is C04/C15, only the routing and balance are judged here',
-               'moisture adjustment is judged only when the permeate holds enough water (otherwise the documented InfeasibleRegion is expected)',
+               'moisture adjustment is judged only when the permeate holds enough water (otherwise the documented InfeasibleRegion is expected); whether it does is decided by the harness from the inputs (moisture needed for the target vs liquid moisture of the permeate; for mix_and_split_with_moisture_content with vapour among the inlets the phase rows come from a separate mix_and_split run on copies)',
+               'whether an x / y specification of the vle wrapper is attainable is decided with the bubble / dew point of the specified composition (Stream.bubble_point_at_P / dew_point_at_P etc., judged by C04) and the lever rule; a refused duty must cool the feed below 250 K by an upper bound of its heat capacity',
+               'the whole-outlet K check allows the 1e-6 resolution of the phase fraction (bracket width of the library\'s solver) carried through the harness\' own Rachford-Rice model',
                "material_balance(balance='composition') is not judged: it is an iteration to a loose tolerance on compositions, not the statement's 'inlets minus outlets vanish'"]
 IDS = ('Water', 'Ethanol', 'Octanol', 'Methanol', 'O2', 'Glucose')
 
@@ -31,7 +36,12 @@ IDS = ('Water', 'Ethanol', 'Octanol', 'Methanol', 'O2', 'Glucose')
 def required(tier):
     return ['mix_and_split', 'moisture', 'partition', 'partition:stale-outlets', 'partition:forced', 'phase_fraction', 'phase_split', 'chemical_splits', 'material_balance', 'material_balance:lstsq', 'moisture:strict=False:short', 'partition:rr-reference', 'partition:rr-reference/one-sided-K', 'phase_split:empty-phase/stale-outlet', 'vle-wrapper', 'lle-wrapper',
             'moisture:ID', 'moisture:multistream', 'moisture:multistream:moisture-in-other-phase', 'forced:bare-string', 'partition:equal-K', 'partition:unit-K', 'partition_coefficients', 'vle:Q', 'vle:x-or-y', 'vle:one-outlet-empty',
-            'vle:multi_stream', 'vle_partition_coefficients', 'lle:multi_stream', 'lle:single-liquid', 'lle_partition_coefficients', 'phase_split:stream', 'mix_and_split:multistream-inlet', 'mix_and_split:top-among-inlets']
+            'vle:multi_stream', 'vle_partition_coefficients', 'lle:multi_stream', 'lle:single-liquid', 'lle_partition_coefficients', 'phase_split:stream', 'mix_and_split:multistream-inlet', 'mix_and_split:top-among-inlets',
+            # oracle audit: every vle specification class must be JUDGED (a refusal is granted only where the harness sees it warranted), the Rachford-Rice reference must reach
+            # phase_fraction and the strict cases, the whole-outlet K check must see single-listed-chemical cases, phase_split must compare against the given rows
+            'vle:judged/VP', 'vle:judged/VP/edge', 'vle:judged/TP', 'vle:judged/TP/far', 'vle:judged/VT', 'vle:judged/QP', 'vle:judged/x-or-y', 'lle:judged/two-liquid',
+            'phase_fraction:rr-reference', 'partition:rr-reference/strict', 'partition:K-whole-outlet/well-conditioned', 'partition:K-whole-outlet/one-listed',
+            'phase_split:feed-unchanged', 'moisture:judged', 'moisture:judged/mixmoist', 'moisture:refusal-warranted']
 
 
 def arr(s): return s.mol.to_array() if hasattr(s.mol, 'to_array') else np.asarray(s.mol, float)
@@ -155,6 +165,24 @@ def rr_root(z, K, za, zb):
     return 0.5 * (lo + hi)
 
 
+CP_MAX = np.array([76., 140., 320., 95., 35., 250.])     # J/mol/K: upper bounds of the liquid (O2: gas) heat capacities of IDS between 250 and 340 K
+
+
+def xy_lever(th, feed, spec):
+    """vapour fraction the lever rule gives for a binary water / ethanol feed and a liquid (x) or vapour (y) composition, with the conjugate composition taken from the
+    bubble / dew point of that composition (not from the flash under test): the x / y specification is attainable iff the value lies in [0, 1]."""
+    z = feed[0] / (feed[0] + feed[1])
+    w = float((spec.get('x') if 'x' in spec else spec['y'])[0])
+    s = tmo.Stream(None, Water=w, Ethanol=1 - w, thermo=th)
+    if 'x' in spec:
+        bp = s.bubble_point_at_P(spec['P']) if 'P' in spec else s.bubble_point_at_T(spec['T'])
+        x_, y_ = w, float(bp.y[bp.IDs.index('Water')])
+    else:
+        dp = s.dew_point_at_P(spec['P']) if 'P' in spec else s.dew_point_at_T(spec['T'])
+        x_, y_ = float(dp.x[dp.IDs.index('Water')]), w
+    return (z - x_) / (y_ - x_) if y_ != x_ else float('inf')
+
+
 def balance(rec, clause, tag, ins, outs, what):
     tot_in = sum(ins) if ins else 0.0; tot_out = sum(outs)
     scale = max(float(np.max(np.abs(tot_in))) if np.size(tot_in) else 0.0, 1e-300)
@@ -236,13 +264,46 @@ def run_case(case, rec):
                     before = [arr(i).copy() for i in ins]
                     split = np.array(case['split']) if isinstance(case['split'], list) else case['split']
                     run = lambda: sep.mix_and_split_with_moisture_content(ins, ret, perm, split, mc, **kwID)
-                try:
-                    run()
-                except InfeasibleRegion:
-                    rec.refuse('not enough water (documented InfeasibleRegion)'); return
                 mbase = tag if t == 'mixmoist' else 'adjust'
                 mtag = mbase + ('/ID' if mID else '') + ('/multistream' if msk else '')
                 if t == 'mixmoist' and (any(case.get('ms_in', [])) or any(case.get('gas_in', []))): mtag += '/gas-or-multistream-inlet'
+                # the harness' own feasibility model (inputs only): the retentate / permeate the adjustment starts from, the moisture the target asks for
+                # (delta), the liquid moisture the retentate would be left with and the liquid moisture the permeate can give
+                iW = ids.index(W); MWa = np.asarray(MW, float)
+                if t == 'moisture':
+                    r_mass = float((before[0] * MWa).sum()); r_all = float(before[0][iW] * MWa[iW])
+                    r_liq = float(ret.imass['l', W]) if msk else r_all
+                    p_liq = float(perm.imass['l', W]) if msk else float(before[1][iW] * MWa[iW])
+                    strict_eff = case.get('strict')
+                else:
+                    r0 = sum(before) * split; p0 = sum(before) - r0          # the mixed inlets divided by the split
+                    r_mass = float((r0 * MWa).sum()); r_all = r_liq = float(r0[iW] * MWa[iW]); p_liq = float(p0[iW] * MWa[iW])
+                    strict_eff = None
+                    if mtag.endswith('/gas-or-multistream-inlet'):
+                        # with vapour among the inlets the outlets may become MultiStreams and only the liquid rows take part in the adjustment: the state the adjustment
+                        # starts from is taken from a separate run of mix_and_split (judged by its own clause) on copies; its totals must be the harness' own r0 / p0
+                        ret_c, perm_c = outlet(0), outlet(1)
+                        sep.mix_and_split([i_.copy() for i_ in ins], ret_c, perm_c, split)
+                        rec.hit('moisture:mixmoist:phase-reference')
+                        if not rec.check(np.allclose(arr(ret_c), r0, rtol=1e-12, atol=0) and np.allclose(arr(perm_c), p0, rtol=1e-12, atol=1e-12 * float(np.max(r0 + p0, initial=0.0))), 'mix_and_split', f'top/{tag}/moisture-reference',
+                                         f'mix_and_split on copies of the inlets: retentate {arr(ret_c).tolist()} / permeate {arr(perm_c).tolist()} != split * sum(ins) {np.asarray(r0).tolist()} / the rest {np.asarray(p0).tolist()}'): return
+                        if isinstance(ret_c, tmo.MultiStream): r_liq = float(ret_c.imass['l', W]) if 'l' in ret_c.phases else 0.0
+                        if isinstance(perm_c, tmo.MultiStream): p_liq = float(perm_c.imass['l', W]) if 'l' in perm_c.phases else 0.0
+                delta = (r_mass - r_all) * mc / (1 - mc) - r_all                # moisture to move from the permeate into the retentate (negative: the other way)
+                ftol = 1e-9 * max(r_mass, p_liq, abs(delta), 1e-300)
+                warranted_liquid = r_liq + delta < ftol                         # moisture outside the liquid phase (reaches) exceeds the target
+                warranted_short = strict_eff is not False and p_liq - delta < ftol     # the permeate cannot give the moisture and infeasibility is to be reported
+                try:
+                    run()
+                except InfeasibleRegion as e_:
+                    # a refusal is documented for exactly two input classes; anywhere else the raise is a failure to reach the requested moisture fraction
+                    if warranted_short or warranted_liquid:
+                        rec.hit('moisture:refusal-warranted')
+                        rec.refuse('not enough water (documented InfeasibleRegion)' if warranted_short else 'moisture outside the liquid phase exceeds the target (documented InfeasibleRegion)'); return
+                    rec.check(False, 'moisture', f'spurious-infeasible/{mtag}' + ('/strict=False' if strict_eff is False else ''),
+                              f'{t}: InfeasibleRegion ({str(e_)[:80]}) although the retentate needs {delta!r} kg/hr of {W} and the permeate liquid holds {p_liq!r} kg/hr (retentate liquid moisture {r_liq!r}, strict={strict_eff})')
+                    return
+                rec.hit('moisture:judged' + ('/mixmoist' if t == 'mixmoist' else ''))
                 balance(rec, 'moisture', mtag, before, [arr(ret), arr(perm)], t)
                 if msk:
                     negp = [float(v) for s_ in (ret, perm) for v in s_.imol.data.to_array().ravel() if v < 0]
@@ -267,33 +328,53 @@ def run_case(case, rec):
                 fb = arr(feed).copy()
                 if not fb[case['ids'] + case['top'] + case['bottom']].sum():
                     rec.refuse('no material among the listed chemicals (composition undefined; not judged)'); return
+                # independent Rachford-Rice reference (harness arithmetic on the inputs): where an interior root exists both outlets hold listed chemicals and phi must be that root
+                L = case['ids'] + case['top'] + case['bottom']
+                Ftot = fb[L].sum()
+                zr = fb[case['ids']] / Ftot; zar = fb[case['top']].sum() / Ftot; zbr = fb[case['bottom']].sum() / Ftot
+                ref = rr_root(zr[zr > 0], K[zr > 0], zar, zbr) if (zr > 0).sum() >= 1 else None
+                interior = ref is not None and 1e-6 < ref < 1 - 1e-6
+                one_sided = all(k_ >= 1 for k_ in case['K']) or all(k_ <= 1 for k_ in case['K'])
+                def infeasible(clause, e_):
+                    # InfeasibleRegion is documented for strict=True and a solution with negative flows. With K > 0 and 0 < phi < 1 the bottom flow
+                    # z_i (1 - phi) F / (phi K_i + 1 - phi) lies inside (0, feed_i): the raise is warranted only if the harness' own flows leave [0, feed_i]
+                    if not case['strict']:
+                        rec.check(False, clause, 'spurious-infeasible/strict=False', f'{t} raised InfeasibleRegion ({str(e_)[:60]}) although strict is False (negative flows are to be removed, not reported)'); return
+                    if ref is not None:
+                        own = zr * (1 - ref) * Ftot / (ref * K + 1 - ref)
+                        if bool(np.any(own < -1e-9 * Ftot) or np.any(own > fb[case['ids']] + 1e-9 * Ftot)):
+                            rec.hit('partition:refusal-warranted'); rec.refuse('InfeasibleRegion (strict)'); return
+                    rec.check(False, clause, 'spurious-infeasible/strict=True' + ('' if ref is not None else '/no-interior-root'),
+                              f'{t} (strict) raised InfeasibleRegion ({str(e_)[:60]}) although with K = {case["K"]} > 0 every bottom flow of the Rachford-Rice solution (root {ref!r}) lies inside [0, feed]')
+                def rr_check(clause, key, phi_):
+                    return rec.check(abs(phi_ - ref) <= 1e-6, clause, key,
+                                     f'{t} returned phi = {phi_!r} but the Rachford-Rice equation with K = {case["K"]}, z = {zr.tolist()}, forced top / bottom fractions {zar} / {zbr} has its root at {ref!r} (both outlets non-empty there)', residual=abs(phi_ - ref))
                 if t == 'phase_fraction':
                     try:
                         phi = sep.phase_fraction(feed, IDs, K, case['phi'], topc, botc, case['strict'])
-                    except InfeasibleRegion:
-                        rec.refuse('InfeasibleRegion (strict)'); return
+                    except InfeasibleRegion as e_:
+                        infeasible('phase_fraction', e_); return
+                    if interior:
+                        rec.hit('phase_fraction:rr-reference')
+                        rr_check('phase_fraction', 'rr-reference' + ('/forced' if (topc or botc) else '') + ('/one-sided-K' if one_sided else ''), phi)
                     top, bot = outlet(0), outlet(1)
                     try: phi2 = sep.partition(mk(th, case['feed']), top, bot, IDs, K, case['phi'], topc, botc, case['strict'])
-                    except InfeasibleRegion: rec.refuse('InfeasibleRegion (strict)'); return
+                    except InfeasibleRegion as e_: infeasible('partition', e_); return
                     rec.check(0.0 <= phi <= 1.0 and abs(phi - phi2) <= 1e-9, 'phase_fraction', 'agrees-with-partition', f'phase_fraction {phi} vs partition {phi2}')
                     rec.check(np.array_equal(arr(feed), fb), 'phase_fraction', 'feed-changed', 'phase_fraction changed the feed')
                     rec.mark_nontrivial(case_hash(case)); return
                 top, bot = outlet(0), outlet(1)
                 try:
                     phi = sep.partition(feed, top, bot, IDs, K, case['phi'], topc, botc, case['strict'])
-                except InfeasibleRegion:
-                    rec.refuse('InfeasibleRegion (strict)'); return
+                except InfeasibleRegion as e_:
+                    infeasible('partition', e_); return
                 ptag = tag + ('/forced' if (topc or botc) else '')
-                # independent Rachford-Rice reference: where an interior root exists both outlets hold listed chemicals and phi must be that root
-                Ftot = fb[case['ids'] + case['top'] + case['bottom']].sum()
-                zr = fb[case['ids']] / Ftot; zar = fb[case['top']].sum() / Ftot; zbr = fb[case['bottom']].sum() / Ftot
-                if (zr > 0).sum() >= 1 and not case['strict']:
-                    ref = rr_root(zr[zr > 0], K[zr > 0], zar, zbr)
-                    if ref is not None and 1e-6 < ref < 1 - 1e-6:
+                if interior:
+                    if not case['strict']:
                         rec.hit('partition:rr-reference')
-                        if all(k_ >= 1 for k_ in case['K']) or all(k_ <= 1 for k_ in case['K']): rec.hit('partition:rr-reference/one-sided-K')
-                        rec.check(abs(phi - ref) <= 1e-6, 'partition', f'phase-fraction/{ptag}' + ('/one-sided-K' if (all(k_ >= 1 for k_ in case['K']) or all(k_ <= 1 for k_ in case['K'])) else ''),
-                                  f'partition returned phi = {phi!r} but the Rachford-Rice equation with K = {case["K"]}, z = {zr.tolist()}, forced top / bottom fractions {zar} / {zbr} has its root at {ref!r} (both outlets non-empty there)', residual=abs(phi - ref))
+                        if one_sided: rec.hit('partition:rr-reference/one-sided-K')
+                    else: rec.hit('partition:rr-reference/strict')
+                    rr_check('partition', f'phase-fraction/{ptag}' + ('/one-sided-K' if one_sided else ''), phi)
                 balance(rec, 'partition', ptag, [fb], [arr(top), arr(bot)], 'partition')
                 rec.check(np.array_equal(arr(feed), fb), 'partition', 'feed-changed', 'partition changed the feed')
                 if stale: rec.hit('partition:stale-outlets')
@@ -326,6 +407,26 @@ def run_case(case, rec):
                     rec.check(len(Kc) == len(IDs) and spread2 <= 1e-6, 'partition', f'partition_coefficients/{ptag}', f'partition_coefficients(IDs, top, bottom)/K not one common factor: {r2.tolist()} (phi={phi})', residual=spread2)
                     rec.mark_nontrivial(case_hash(case))
                 elif fb.any() and (fb > 0).sum() >= 2: rec.mark_nontrivial(case_hash(case))
+                # with mole fractions taken over each whole outlet (listed + forced chemicals) the common factor is exactly one at the Rachford-Rice root:
+                # y_i = K_i x_i for EVERY listed chemical present in both outlets, also when only one chemical is listed. The library resolves phi to 1e-6
+                # (bracket width); the bound is that resolution carried through the harness' own model: factor(phi) = b(phi) / a(phi),
+                # a = sum z K / (1 + phi (K - 1)) + za / phi, b = sum z / (1 + phi (K - 1)) + zb / (1 - phi), evaluated at ref -+ 1e-6
+                if interior and idx:
+                    def fac(p_): return (float((zr / (1 + p_ * (K - 1))).sum()) + (zbr / (1 - p_) if zbr > 0 else 0.0)) / (float((zr * K / (1 + p_ * (K - 1))).sum()) + (zar / p_ if zar > 0 else 0.0))
+                    sens = max(abs(fac(ref - 1e-6) - 1), abs(fac(ref + 1e-6) - 1))
+                    tolK = 1e-9 + 1.5 * sens + 2e-15 * max(fb[i] / yt[i] for i in idx)      # ... plus the round-off of top = feed - bottom where nearly all of a chemical stays in the bottom
+                    Ts = yt[L].sum(); Bs = xb[L].sum()
+                    Kd = {i: k for i, k in zip(case['ids'], K)}
+                    rw = np.array([(yt[i] / Ts) / (xb[i] / Bs) / Kd[i] for i in idx])
+                    dev = float(np.abs(rw - 1).max())
+                    cond = 'well-conditioned' if tolK <= 1e-4 else 'ill-conditioned'
+                    rec.hit(f'partition:K-whole-outlet/{cond}')
+                    if len(case['ids']) == 1: rec.hit('partition:K-whole-outlet/one-listed')
+                    rec.check(dev <= tolK, 'partition', f'K-whole-outlet/{ptag}/{cond}', f'(y/x)/K over the whole outlets (listed + forced chemicals) is not one: {rw.tolist()} for chemicals {[ids[i] for i in idx]} '
+                              f'(phi={phi!r}, Rachford-Rice root {ref!r}, bound {tolK:.3g} = the 1e-6 resolution in phi carried through the model)')
+                    rec.notes['K-whole-outlet: worst deviation / bound (this shard)'] = max(rec.notes.get('K-whole-outlet: worst deviation / bound (this shard)', 0.0), dev / tolK)
+                    if sens > 0: rec.notes['K-whole-outlet: worst deviation as an error in phi (this shard)'] = max(rec.notes.get('K-whole-outlet: worst deviation as an error in phi (this shard)', 0.0), dev / sens * 1e-6)
+                    if cond == 'well-conditioned': rec.notes['K-whole-outlet: worst deviation, well-conditioned (this shard)'] = max(rec.notes.get('K-whole-outlet: worst deviation, well-conditioned (this shard)', 0.0), dev)
             elif t == 'phase_split' and case.get('as_stream'):
                 # a single-phase Stream and one outlet
                 fs = mk(th, case['rows'][0], case['phases'])
@@ -340,10 +441,15 @@ def run_case(case, rec):
                     for i, v in zip(ids, row):
                         if v: ms.imol[p, i] = v
                 outs = [outlet(k % 2) for k in range(len(ms.phases))]
+                phases0 = tuple(ms.phases)                                              # outlets are allocated in this (alphabetical) order
+                given = {p: np.array(row, float) for p, row in zip(case['phases'], case['rows'])}      # what the harness put into each phase: the reference (not the feed read back after the call)
                 sep.phase_split(ms, outs)
                 if any(not any(r_) for r_ in case['rows']): rec.hit('phase_split:empty-phase' + ('/stale-outlet' if stale else ''))
-                for p, o in zip(ms.phases, outs):
-                    rec.check(np.array_equal(arr(o), ms.imol[p].to_array()) and o.phase == p, 'phase_split', tag, f'outlet for phase {p}: phase {o.phase}, flows {arr(o).tolist()} != {ms.imol[p].to_array().tolist()}')
+                for p, o in zip(phases0, outs):
+                    rec.check(np.array_equal(arr(o), given[p]) and o.phase == p, 'phase_split', tag, f'outlet for phase {p}: phase {o.phase}, flows {arr(o).tolist()} != what the feed held in that phase {given[p].tolist()}')
+                rec.hit('phase_split:feed-unchanged')
+                rec.check(tuple(ms.phases) == phases0 and all(np.array_equal(ms.imol[p].to_array(), given[p]) for p in phases0), 'phase_split', 'feed-changed/multistream',
+                          f'phase_split changed the feed: phases {tuple(ms.phases)}, rows {[ms.imol[p].to_array().tolist() for p in ms.phases]} (given {[given[p].tolist() for p in phases0]})')
                 rec.mark_nontrivial(case_hash(case))
             elif t == 'chemical_splits':
                 a = mk(th, case['a']); b = mk(th, case['b'])
@@ -389,12 +495,33 @@ def run_case(case, rec):
                         for i, v in zip(ids, case['stale_flows'][k_]):
                             if v: msv.imol[ph_, i] = v
                     spec['multi_stream'] = msv
+                sp_ = case['spec']
+                vcls = ('x-or-y' if ('x' in sp_ or 'y' in sp_) else 'QP' if 'Q' in sp_ else 'VT' if ('V' in sp_ and 'T' in sp_) else
+                        ('VP/edge' if sp_['V'] in (0.0, 1.0) else 'VP') if 'V' in sp_ else ('TP' if 350 <= sp_['T'] <= 370 else 'TP/far'))
+                rec.hit(f'vle:cases/{vcls}')
                 try:
                     sep.vle(feed, vap, liq, **spec)
                 except Exception as e:
-                    # the balance is stated for calls that return; a raise inside the equilibrium solver is counted, programming errors are still reported
-                    if not isinstance(e, (TypeError, AttributeError, KeyError, IndexError, NameError, UnboundLocalError)): rec.refuse(f'vle raised: {type(e).__name__}'); return
-                    raise
+                    # the balance is stated for calls that return. A raise is a documented refusal for two input classes only, and only when the harness can see from the
+                    # inputs that it is warranted: (1) x / y specifications the lever rule cannot reach (InfeasibleRegion), (2) a duty that cools the 340 K feed out of the
+                    # model range (RuntimeError of the heat-capacity extrapolation). Everything else - any raise for (V,P), (T,P), (V,T) - is a violation.
+                    if isinstance(e, (TypeError, AttributeError, KeyError, IndexError, NameError, UnboundLocalError)): raise
+                    if exc_key(e).endswith('@?'): raise
+                    if vcls == 'x-or-y' and isinstance(e, InfeasibleRegion):
+                        lever = xy_lever(th, case['feed'], sp_)
+                        if not (1e-4 < lever < 1 - 1e-4):
+                            rec.hit('vle:refusal-warranted/x-or-y'); rec.refuse('vle raised: InfeasibleRegion'); return
+                        rec.check(False, 'vle-wrapper', 'spurious-refusal/x-or-y', f'separations.vle raised InfeasibleRegion for {sp_} although the lever rule on the bubble / dew point of that composition gives a vapour fraction of {lever!r} for the feed {case["feed"][:2]}')
+                        return
+                    if vcls == 'QP' and isinstance(e, RuntimeError) and not isinstance(e, (NotImplementedError, RecursionError)):
+                        cap = float((np.array(case['feed']) * CP_MAX).sum())          # kJ/hr/K, an upper bound of the feed's heat capacity: it cools by at least |Q| / cap
+                        if sp_['Q'] < -90. * cap:
+                            rec.hit('vle:refusal-warranted/QP'); rec.refuse('vle raised: RuntimeError'); return
+                        rec.check(False, 'vle-wrapper', 'spurious-refusal/QP', f'separations.vle raised RuntimeError ({str(e)[:80]}) for a duty of {sp_["Q"]} kJ/hr on a feed of heat capacity <= {cap} kJ/hr/K (the outlet temperature stays above 250 K)')
+                        return
+                    rec.check(False, 'vle-wrapper', f'raised/{vcls}/{exc_key(e)}', f'separations.vle({sp_}) raised {type(e).__name__}: {str(e)[:120]} (no refusal is documented for this specification)')
+                    return
+                rec.hit(f'vle:judged/{vcls}')
                 balance(rec, 'vle-wrapper', tag, [fb], [arr(vap), arr(liq)], 'separations.vle')
                 rec.check(vap.phase == 'g' and liq.phase == 'l' and vap.T == liq.T and vap.P == liq.P, 'vle-wrapper', 'routing', f'vapour outlet phase {vap.phase}, liquid outlet phase {liq.phase}, T {vap.T}/{liq.T}')
                 rec.check(np.array_equal(arr(feed), fb), 'vle-wrapper', 'feed-changed', 'separations.vle changed the feed')
@@ -425,12 +552,16 @@ def run_case(case, rec):
                         for i, v in zip(ids, case['stale_flows'][k_]):
                             if v: msl.imol[ph_, i] = v
                     kwl['multi_stream'] = msl
+                lcls = 'no-solvent' if not case['feed'][2] else 'no-water' if not case['feed'][0] else 'trace-solvent' if case['feed'][2] < 0.011 else 'two-liquid'
+                rec.hit('lle:cases'); rec.hit(f'lle:cases/{lcls}')
                 try:
                     sep.lle(feed, top, bot, top_chemical=case['topchem'], efficiency=case['eff'], **kwl)
                 except Exception as e:
-                    # the balance is stated for calls that return; a raise inside the equilibrium solver is counted, programming errors are still reported
-                    if not isinstance(e, (TypeError, AttributeError, KeyError, IndexError, NameError, UnboundLocalError)): rec.refuse(f'lle raised: {type(e).__name__}'); return
-                    raise
+                    # no refusal is documented for lle at 300 K on water / ethanol / octanol feeds: every raise is a violation (programming errors keep their key)
+                    if isinstance(e, (TypeError, AttributeError, KeyError, IndexError, NameError, UnboundLocalError)) or exc_key(e).endswith('@?'): raise
+                    rec.check(False, 'lle-wrapper', f'raised/{lcls}/{exc_key(e)}', f'separations.lle (efficiency {case["eff"]}, top_chemical {case["topchem"]}) raised {type(e).__name__}: {str(e)[:120]} (no refusal is documented for this feed)')
+                    return
+                rec.hit(f'lle:judged/{lcls}')
                 balance(rec, 'lle-wrapper', tag + f'/eff{"=1" if case["eff"] == 1 else ("=0" if case["eff"] == 0 else "<1")}', [fb], [arr(top), arr(bot)], 'separations.lle')
                 rec.check(np.array_equal(arr(feed), fb), 'lle-wrapper', 'feed-changed', 'separations.lle changed the feed')
                 if case['eff'] == 0: rec.check(np.allclose(arr(top), arr(bot), rtol=1e-12), 'lle-wrapper', 'eff=0', 'with efficiency 0 the feed is not divided equally')
